@@ -2528,9 +2528,12 @@ def statement_shape(fi, positional=False):
         # element names made unique per zip loop by canonical_func keep their spelling here
         if isinstance(t, tuple):
             return tuple(unz(x) for x in t)
-        if isinstance(t, str) and '__z' in t:
+        if isinstance(t, str) and ('__z' in t or 'unpack__' in t or '__idx' in t):
             import re
-            return re.sub(r'__z\d+\b', '', t)
+            t = re.sub(r'__z\d+\b', '', t)
+            t = re.sub(r'\bunpack__\d+\b', 'unpack__', t)        # generated names carry a line number: not an edit
+            t = re.sub(r'\bzip\d+__idx', 'zip__idx', t)
+            return t
         return t
     items = [unz(x) for x in items]
     if positional:
